@@ -141,7 +141,89 @@ def check_qnode(codes, m_code):
     return probs
 
 
+# ---- circuits with mid-circuit measurements and a conditional that depends on several of them
+MCM_GATES = {"H0": lambda: qp.Hadamard(0), "X2": lambda: qp.PauliX(2), "CNOT02": lambda: qp.CNOT([0, 2]), "RZ3": lambda: qp.RZ(0.3, 3), "none": lambda: None}
+MG = list(MCM_GATES)
+CONDS = ["m0 & m1", "m1 & m0", "m0", "m1", "m0 + m1 == 1"]
+
+
+def mcm_tape(codes, cond_code, second_first):
+    """[g g g g] m(0) [g] m(3) cond(expr, X)(2) [g]; `second_first` swaps the queue order of the two measurements"""
+    with qp.queuing.AnnotatedQueue() as q:
+        for c in codes[:3]:
+            MCM_GATES[MG[c]]()
+        qp.T(0)
+        if second_first:
+            m1 = qp.measure(3)
+            MCM_GATES[MG[codes[3]]]()
+            m0 = qp.measure(0)
+        else:
+            m0 = qp.measure(0)
+            MCM_GATES[MG[codes[3]]]()
+            m1 = qp.measure(3)
+        expr = {"m0 & m1": m0 & m1, "m1 & m0": m1 & m0, "m0": m0, "m1": m1, "m0 + m1 == 1": (m0 + m1 == 1)}[CONDS[cond_code]]
+        qp.cond(expr, qp.PauliX)(wires=2)
+        MCM_GATES[MG[codes[4]]]()
+        qp.expval(qp.PauliZ(2))
+    return qp.tape.QuantumScript.from_queue(q)
+
+
+def own_depth_mcm(ops):
+    front, layer_of, depth = {}, {}, 0
+    for op in ops:
+        deps = [front.get(w, 0) for w in op.wires]
+        if type(op).__name__ == "Conditional":
+            deps += [layer_of[id(m)] for m in op.meas_val.measurements]
+        layer = 1 + max(deps, default=0)
+        for w in op.wires:
+            front[w] = layer
+        layer_of[id(op)] = layer
+        depth = max(depth, layer)
+    return depth
+
+
+def check_mcm(codes, cond_code, second_first):
+    tape = mcm_tape(codes, cond_code, second_first)
+    probs = []
+    want = own_depth_mcm(tape.operations)
+    for label, res in (("resources_from_tape", resources_from_tape(tape)), ("tape.specs", tape.specs["resources"])):
+        if res.circuit_depth != want:
+            probs.append(f"{label}: depth {res.circuit_depth} != longest dependency path {want} (a conditional depends on every measurement in its condition)")
+        cnt = dict(Counter(own_name(o) for o in tape.operations))
+        if dict(res.counts) != cnt:
+            probs.append(f"{label}: counts {dict(res.counts)} != {cnt}")
+    return probs
+
+
+def mcm_work(item):
+    _, cond_code, second_first = item
+    name = f"depth / counts with two mid-circuit measurements and cond({CONDS[cond_code]}, X), measurements queued {'m1 first' if second_first else 'm0 first'}"
+    npaths = q = 0
+    ts = 0.0
+    try:
+        def build(S):
+            codes = [S.int(f"g{i}", 0, len(MG) - 1).concretize(0, len(MG) - 1) for i in range(5)]
+            return codes, check_mcm(codes, cond_code, second_first)
+
+        for S, (codes, probs) in sb.explore_iter(build, max_paths=200000):
+            npaths += 1
+            q += S.decisions
+            ts += S.solver_s
+            if probs:
+                payload = {"kind": "mcm", "codes": [int(c) for c in codes], "cond": cond_code, "second_first": second_first}
+                ok, obs = replay(payload)
+                payload["observed"] = obs
+                return [{"name": name, "status": VIOLATED if ok else INCONCLUSIVE, "signature": "mcm:depth", "symbols": ["gate kinds"], "queries": q, "replay": payload, "detail": obs}]
+    except sb.PathLimit as e:
+        return [{"name": name, "status": INCONCLUSIVE, "detail": str(e), "symbols": ["gate kinds"]}]
+    return [{"name": name, "status": DISCHARGED, "queries": q, "solver": "z3 (path feasibility)", "symbols": ["gate kinds"], "solver_s": round(ts, 3), "time_s": round(ts, 3),
+             "detail": f"{npaths} solver-enumerated circuits: depth equals the longest dependency path"}]
+
+
 def replay(p):
+    if p["kind"] == "mcm":
+        pr = check_mcm(p["codes"], p["cond"], p["second_first"])
+        return bool(pr), f"gates {[MG[c] for c in p['codes']]}, cond({CONDS[p['cond']]}): " + ("; ".join(pr[:2]) or "depth agrees")
     if p["kind"] == "expr":
         return replay_expr(p)
     pr = check_tape(p["codes"], p["meas"]) if p["kind"] == "tape" else check_qnode(p["codes"], p["meas"])
@@ -264,6 +346,8 @@ def expr_work(item):
 
 
 def _dispatch(it):
+    if it[0] == "mcm":
+        return mcm_work(it)
     return expr_work(it[1:]) if it[0] == "expr" else count_work(it)
 
 
@@ -272,6 +356,7 @@ def run(ctx):
     firsts = range(len(GK)) if ctx.tier == "thorough" else [0, 3, 6, 9, 11, 13, 15]
     items = [("tape", f, m) for f in firsts for m in range(len(MK))]
     items += [("qnode", f, 0) for f in ([0, 3, 4, 6] if ctx.tier == "quick" else range(len(GK)))]
+    items += [("mcm", c, sf) for c in range(len(CONDS)) for sf in (False, True)]
     shapes = list(SHAPES)
     items += [("expr", law, a, b) for law in LAWS for a, b in ([("linear", "two variables"), ("quadratic", "linear"), ("unsorted key", "quadratic")] if ctx.tier == "quick" else [(x, y) for x in shapes for y in shapes])]
     if ctx.only:
